@@ -96,3 +96,14 @@ Require RV.Gen.Sites RV.Model.SiteMap RV.Proofs.SitesFacts.
 Theorem C09_literals_reviewed : RV.Model.SiteMap.literals_ok RV.Model.SiteMap.files_C09.
 Proof. apply RV.Proofs.SitesFacts.literals_okb_sound. vm_compute. reflexivity. Qed.
 Print Assumptions C09_literals_reviewed.
+
+(* ---- Responder::make_response AS TRANSLATED FROM THE SOURCE on this run: which six fields a reply
+   carries, in which order, with the request's own nonce, path and index ---- *)
+Require Import RV.Model.GenSupport RV.Gen.Code RV.Proofs.CodeKeys.
+
+Theorem C09_translated_make_response_is_model :
+  forall srep cert_bytes path idx nonce,
+    ok_opt (gen_make_response tt srep cert_bytes path idx nonce)
+    = ok_opt (make_response srep cert_bytes path idx nonce).
+Proof. exact gen_make_response_model. Qed.
+Print Assumptions C09_translated_make_response_is_model.
